@@ -210,8 +210,13 @@ def link_noise(rng, n=3, i=0):
     ep6 = tcpcap.default_ep(230 + i, True, 443)
     items = []
     for k in range(n):
-        kind = rng.choice(["arp", "arp", "lldp", "icmp", "icmp6", "igmp"])
-        if kind == "arp":
+        kind = rng.choice(["arp", "arp", "lldp", "icmp", "icmp6", "igmp", "runt"])
+        if kind == "runt":
+            # a frame that ends inside its link-layer header (runt, or a capture filter's snap length on one interface): 0..21 octets, every header kind whose
+            # decoder wants more than the 14 octets of the Ethernet header (VLAN tags, MPLS, PPPoE, 802.2 LLC/SNAP) and the plain IP types
+            et = rng.choice([b"\x81\x00", b"\x81\x00", b"\x88\xa8", b"\x88\xa8\x00\x05\x81\x00", b"\x88\x47", b"\x88\x64", b"\x08\x00", b"\x86\xdd", b"\x00\x2e", b"\x05\xdc"])
+            fr = (ep.smac + ep.cmac + et + rng.randbytes(8))[:rng.randrange(0, 22)]
+        elif kind == "arp":
             body = struct.pack("!HHBBH", 1, 0x0800, 6, 4, rng.choice([1, 2])) + ep.cmac + ep.cip + (bytes(6) if k % 2 == 0 else ep.smac) + ep.sip
             fr = b"\xff" * 6 + ep.cmac + b"\x08\x06" + body + bytes(18)
         elif kind == "lldp":
